@@ -332,3 +332,96 @@ func cliReplyFields(frame []byte) []cliField {
 	}
 	return out
 }
+
+// cliVField is a VALUE word of a well-formed reply (not a length or count): a 32- or 64-bit number the client hands
+// to its caller or computes with (file size, ids, permission bits, times, the statvfs numbers, the status code).
+type cliVField struct {
+	Off  int
+	W    int // 4 or 8 bytes
+	Name string
+	Val  uint64
+}
+
+// cliReplyValueFields lists the value words of a valid reply frame (offsets from the start of the frame).
+func cliReplyValueFields(frame []byte) []cliVField {
+	if len(frame) < 9 {
+		return nil
+	}
+	var out []cliVField
+	pos := 9
+	num := func(name string, w int) bool {
+		if pos+w > len(frame) {
+			return false
+		}
+		var v uint64
+		for _, b := range frame[pos : pos+w] {
+			v = v<<8 | uint64(b)
+		}
+		if name != "" {
+			out = append(out, cliVField{pos, w, name, v})
+		}
+		pos += w
+		return true
+	}
+	u32 := func() (uint32, bool) {
+		if pos+4 > len(frame) {
+			return 0, false
+		}
+		v := uint32(frame[pos])<<24 | uint32(frame[pos+1])<<16 | uint32(frame[pos+2])<<8 | uint32(frame[pos+3])
+		pos += 4
+		return v, true
+	}
+	str := func() bool {
+		n, ok := u32()
+		if !ok || pos+int(n) > len(frame) {
+			return false
+		}
+		pos += int(n)
+		return true
+	}
+	attrs := func(pfx string) bool {
+		fl, ok := u32()
+		if !ok {
+			return false
+		}
+		if fl&wire.ASize != 0 && !num(pfx+"size", 8) {
+			return false
+		}
+		if fl&wire.AUIDGID != 0 && !(num(pfx+"uid", 4) && num(pfx+"gid", 4)) {
+			return false
+		}
+		if fl&wire.APerm != 0 && !num(pfx+"perm", 4) {
+			return false
+		}
+		if fl&wire.ATime != 0 && !(num(pfx+"atime", 4) && num(pfx+"mtime", 4)) {
+			return false
+		}
+		if fl&wire.AExt != 0 {
+			n, ok := u32()
+			if !ok {
+				return false
+			}
+			for i := uint32(0); i < n; i++ {
+				if !str() || !str() {
+					return false
+				}
+			}
+		}
+		return true
+	}
+	switch frame[4] {
+	case wire.Status:
+		num("status-code", 4)
+	case wire.Attrs:
+		attrs("")
+	case wire.Name:
+		n, ok := u32()
+		for i := uint32(0); ok && i < n; i++ {
+			ok = str() && str() && attrs(fmt.Sprintf("name%d-", i))
+		}
+	case wire.ExtendedReply:
+		for i := 0; num(fmt.Sprintf("extreply-u64-%d", i), 8); i++ {
+		}
+	}
+	return out
+}
